@@ -162,7 +162,7 @@ func factsFor(p *pkgInfo, ty string) ([]fieldFact, error) {
 	if !ok {
 		return nil, fmt.Errorf("DeepCopyInto for %s not found", ty)
 	}
-	wholesale := false        // *out = *in
+	wholesale := false             // *out = *in
 	deepBlock := map[string]bool{} // if in.F != nil { *out = new/make ... }
 	deepCall := map[string]bool{}  // in.F.DeepCopyInto(&out.F)
 	assigned := map[string]bool{}  // out.F = ...
